@@ -573,6 +573,28 @@ func c04Signals() []*c04Sig {
 		alone: func(r gRes, s gScope, m *gMetric, it gItem) int {
 			return c04MetricsM.MetricsSize(c04BuildMetrics([]gRes{{ctx: r.ctx, scopes: []gScope{{ctx: s.ctx,
 				metrics: []gMetric{{ident: m.ident, kind: m.kind, pts: []gItem{it}}}}}}}))
+		},
+		fragSize: func(t []gRes) int {
+			md := c04BuildMetrics(t)
+			rms := md.ResourceMetrics()
+			sms := rms.At(rms.Len() - 1).ScopeMetrics()
+			ms := sms.At(sms.Len() - 1).Metrics()
+			m := ms.At(ms.Len() - 1)
+			nm := pmetric.NewMetric()
+			switch m.Type() {
+			case pmetric.MetricTypeGauge:
+				m.Gauge().DataPoints().MoveAndAppendTo(nm.SetEmptyGauge().DataPoints())
+			case pmetric.MetricTypeSum:
+				m.Sum().DataPoints().MoveAndAppendTo(nm.SetEmptySum().DataPoints())
+			case pmetric.MetricTypeHistogram:
+				m.Histogram().DataPoints().MoveAndAppendTo(nm.SetEmptyHistogram().DataPoints())
+			case pmetric.MetricTypeExponentialHistogram:
+				m.ExponentialHistogram().DataPoints().MoveAndAppendTo(nm.SetEmptyExponentialHistogram().DataPoints())
+			case pmetric.MetricTypeSummary:
+				m.Summary().DataPoints().MoveAndAppendTo(nm.SetEmptySummary().DataPoints())
+			}
+			nm.MoveTo(m)
+			return c04MetricsM.MetricsSize(md)
 		}}
 	return []*c04Sig{logs, traces, metrics}
 }
@@ -775,6 +797,10 @@ func TestVerifC04(t *testing.T) {
 	}
 	for i := 0; i < vBudget(60, 10); i++ {
 		c04One(out, sigs[i%3], g, 1, 2)
+	}
+	// metrics, bytes: max_size at the size of a truncated metric (fragment length prefixes)
+	for i := 0; i < vBudget(60, 10); i++ {
+		c04One(out, sigs[2], g, 1, 3)
 	}
 	for i := 0; i < vBudget(160, 8); i++ {
 		c04EndToEnd(out, g, i%3)
